@@ -45,6 +45,10 @@ static void do_track()
     auto in = mkps(n, 1, qmin, qmax, pmin, pmax);
     auto out = mkps(n, 1, qmin, qmax, pmin, pmax);
     printf("case %s\n", id.c_str());
+    // once a coordinate has left [0,n-1] (or is not finite) the next applyTo would convert a negative
+    // float to an unsigned index / read outside the tables: the remaining maps of the case are parsed
+    // but not executed, and a "stop" line says after which map
+    bool dead = false;
     for (unsigned k = 0; k < nops; k++) {
         std::string kind = next();
         std::unique_ptr<SourceMap> sm;
@@ -53,6 +57,7 @@ static void do_track()
             unsigned it = nextl();
             std::vector<meshaxis_t> offs(n);
             for (auto& o : offs) o = nextf();
+            if (dead) continue;
             auto* km = new KickMap(in, out, static_cast<SourceMap::InterpolationType>(it), false,
                                    dir == "x" ? KickMap::Axis::x : KickMap::Axis::y, nullptr);
             km->swapOffset(offs);
@@ -64,6 +69,7 @@ static void do_track()
             unsigned it = nextl();
             std::vector<meshaxis_t> slip(2);
             slip[0] = nextf(); slip[1] = nextf();
+            if (dead) continue;
             auto* km = new DriftMap(in, out, slip, 1.0f, static_cast<SourceMap::InterpolationType>(it), false, nullptr);
             sm.reset(km);
             printf("offs");
@@ -72,20 +78,23 @@ static void do_track()
         } else if (kind == "rf") {
             unsigned it = nextl();
             float angle = nextf();
+            if (dead) continue;
             auto* km = new RFKickMap(in, out, angle, 1.0f, static_cast<SourceMap::InterpolationType>(it), false, nullptr);
             sm.reset(km);
             printf("offs");
             for (unsigned i = 0; i < n; i++) pf(km->_offset[i]);
             printf("\n");
         } else if (kind == "ident") {
+            if (dead) continue;
             sm.reset(new Identity(in, out, nullptr));
         } else if (kind == "fp") {
             unsigned fptype = nextl(), fptrack = nextl(), dt = nextl();
             float e1 = nextf();
             unsigned long seed = nextl();
             if (fptrack == 2) {
-                for (size_t i = 0; i < (size_t)n * n; i++) in->getData()[i] = nextf();
+                for (size_t i = 0; i < (size_t)n * n; i++) { float v = nextf(); if (!dead) in->getData()[i] = v; }
             }
+            if (dead) continue;
             auto* fpm = new FokkerPlanckMap(in, out, n, n, static_cast<FokkerPlanckMap::FPType>(fptype),
                                             static_cast<FokkerPlanckMap::FPTracking>(fptrack), e1,
                                             static_cast<FokkerPlanckMap::DerivationType>(dt), nullptr);
@@ -111,6 +120,9 @@ static void do_track()
         }
         sm->applyToAll(ps);
         print_pos("pos", ps);
+        for (auto& p : ps)
+            if (!(p.x >= 0.0f && p.x <= (float)(n - 1) && p.y >= 0.0f && p.y <= (float)(n - 1))) dead = true;
+        if (dead) printf("stop %u\n", k);
     }
     print_lookup(in, n, ps);
     printf("end\n");
